@@ -373,27 +373,15 @@ Section Refine.
   Qed.
 
   (* ---------------- FindModuleByNamespace *)
-  Lemma ns_scan_some : forall ns ms id,
-    ns_scan ns (Some id) ms =
-    if forallb (fun x => N.eqb id (gid x)) (ns_matches ns ms) then NsFound id else NsAmbiguous.
+  Lemma ns_scan_choose : forall holder ns ms found,
+    ns_scan holder ns found ms = ns_choose holder found (ns_matches ns ms).
   Proof.
-    intros ns. induction ms as [|g ms IH]; intros id; simpl; [reflexivity|].
+    intros holder ns. induction ms as [|g ms IH]; intros found; simpl; [reflexivity|].
     destruct (gkind g); [|apply IH].
     destruct (str_eqb (g_ns g) ns); [|apply IH]. simpl.
-    destruct (N.eqb id (gid g)); [apply IH|reflexivity].
-  Qed.
-
-  Lemma ns_scan_none : forall ns ms,
-    ns_scan ns None ms =
-    match ns_matches ns ms with
-    | [] => NsNone
-    | g :: r => if forallb (fun x => N.eqb (gid g) (gid x)) r then NsFound (gid g) else NsAmbiguous
-    end.
-  Proof.
-    intros ns. induction ms as [|g ms IH]; simpl; [reflexivity|].
-    destruct (gkind g); [|apply IH].
-    destruct (str_eqb (g_ns g) ns); [|apply IH].
-    apply ns_scan_some.
+    destruct found as [f|]; [|apply IH].
+    destruct (N.eqb (gid f) (gid g)); [apply IH|].
+    destruct (str_eqb (gname f) (gname g)); [apply IH|reflexivity].
   Qed.
 
   Definition NsInv (st : state obs) (acc : list ghdr) : Prop :=
@@ -408,7 +396,7 @@ Section Refine.
     intros st acc ns HI HN. unfold QueryNS.
     destruct (aget str_eqb (byns st) ns) as [id|] eqn:EC.
     - simpl. rewrite (HN _ _ EC). repeat split; try apply HI. exact HN.
-    - destruct HI as [HR [HM HT]]. rewrite ns_scan_none. rewrite HR, HM. fold (spec_ns acc ns).
+    - destruct HI as [HR [HM HT]]. rewrite ns_scan_choose. rewrite HR, HM. fold (spec_ns acc ns).
       destruct (spec_ns acc ns) as [id| |] eqn:ES; cbn [fst snd]; repeat split; try assumption.
       intros ns' id'. cbn [byns]. rewrite aget_aset_str. destruct (str_eqb ns ns') eqn:E.
       + apply seqb_eq in E. subst ns'. intros H. inversion H; subst. exact ES.
